@@ -1,310 +1,10 @@
 // ovm_exec: performs call scripts on real OpenVolumeMesh meshes and records,
 // after every call, the full observable state as one ndjson line.
 // No expected values, no oracle logic (see exec_common.hh).
-#include "exec_common.hh"
+#include "ovm_state.hh"
 #include "queries.hh"
-
-#include <OpenVolumeMesh/Mesh/PolyhedralMesh.hh>
-#include <OpenVolumeMesh/Mesh/TetrahedralMesh.hh>
-#include <OpenVolumeMesh/Mesh/HexahedralMesh.hh>
 #include <OpenVolumeMesh/Attribs/StatusAttrib.hh>
-
-#include <memory>
-#include <map>
 #include <csignal>
-
-using namespace OpenVolumeMesh;
-using vx::Json; using vx::CallRec;
-
-// ---------------------------------------------------------------- properties
-// A tracked property of the executor: created through the public registry,
-// values are a function of the entity's stamp id so that any mis-permutation
-// is visible.  "default" slots are stamped by the explicit pseudo call "stamp".
-struct PropBase {
-    std::string kind, name, type, flavour;
-    virtual ~PropBase() = default;
-    virtual size_t size() const = 0;
-    virtual void dump_vals(Json &j) const = 0;
-    virtual void dump_def(Json &j) const = 0;
-    virtual void set_from_id(size_t slot, long long id) = 0;
-    virtual bool valid() const = 0;
-};
-
-template <class T> struct Conv;
-template <> struct Conv<int> {
-    static int from_id(long long id) { return (int)(id * 7 + 3); }
-    static int def() { return -7; }
-    static void put(Json &j, int v) { j.val((long long)v); }
-    static const char *name() { return "int"; }
-};
-template <> struct Conv<bool> {
-    static bool from_id(long long id) { unsigned long long x = (unsigned long long)id * 0x9E3779B97F4A7C15ull; return (x >> 40) & 1; }
-    static bool def() { return false; }
-    static void put(Json &j, bool v) { j.val((long long)(v ? 1 : 0)); }
-    static const char *name() { return "bool"; }
-};
-template <> struct Conv<double> {
-    static double from_id(long long id) { return (double)id + 0.25; }
-    static double def() { return -0.5; }
-    static void put(Json &j, double v) { char b[64]; snprintf(b, sizeof b, "%.17g", v); j.val(std::string(b)); }
-    static const char *name() { return "double"; }
-};
-template <> struct Conv<std::string> {
-    static std::string from_id(long long id) { return "s" + std::to_string(id); }
-    static std::string def() { return "dflt"; }
-    static void put(Json &j, const std::string &v) { j.val(v); }
-    static const char *name() { return "string"; }
-};
-template <> struct Conv<Vec3d> {
-    static Vec3d from_id(long long id) { return Vec3d((double)id, 2.0 * id + 0.5, -1.0 * id); }
-    static Vec3d def() { return Vec3d(9.0, 9.0, 9.0); }
-    static void put(Json &j, const Vec3d &v) { char b[128]; snprintf(b, sizeof b, "%.17g %.17g %.17g", v[0], v[1], v[2]); j.val(std::string(b)); }
-    static const char *name() { return "vec3d"; }
-};
-
-// the id property: value is the stamp id itself, default -1
-struct IdTag {};
-
-template <class T, class Tag, bool IsId = false>
-struct PropT : PropBase {
-    PropertyPtr<T, Tag> p;
-    explicit PropT(PropertyPtr<T, Tag> pp) : p(std::move(pp)) {}
-    size_t size() const override { return p.size(); }
-    bool valid() const override { return (bool)p; }
-    void dump_vals(Json &j) const override {
-        j.begin_arr();
-        auto const &v = p.data_vector();
-        for (size_t i = 0; i < v.size(); ++i) Conv<T>::put(j, (T)v[i]);
-        j.end_arr();
-    }
-    void dump_def(Json &j) const override { Conv<T>::put(j, p.def()); }
-    void set_from_id(size_t slot, long long id) override {
-        HandleT<Tag> h((int)slot);
-        if constexpr (IsId) p.at(h) = (T)id; else p.at(h) = Conv<T>::from_id(id);
-    }
-};
-
-template <class Tag> const char *kind_name();
-template <> const char *kind_name<Entity::Vertex>() { return "V"; }
-template <> const char *kind_name<Entity::Edge>() { return "E"; }
-template <> const char *kind_name<Entity::HalfEdge>() { return "HE"; }
-template <> const char *kind_name<Entity::Face>() { return "F"; }
-template <> const char *kind_name<Entity::HalfFace>() { return "HF"; }
-template <> const char *kind_name<Entity::Cell>() { return "C"; }
-template <> const char *kind_name<Entity::Mesh>() { return "M"; }
-
-// ---------------------------------------------------------------- one mesh
-struct Acc : TopologyKernel {
-    static auto const &out(TopologyKernel const &m) { return m.*(&Acc::outgoing_hes_per_vertex_); }
-    static auto const &hehf(TopologyKernel const &m) { return m.*(&Acc::incident_hfs_per_he_); }
-    static auto const &inc(TopologyKernel const &m) { return m.*(&Acc::incident_cell_per_hf_); }
-};
-
-struct MeshBox {
-    std::string type;
-    std::unique_ptr<TopologyKernel> owner;
-    TopologyKernel *m = nullptr;
-    std::vector<std::unique_ptr<PropBase>> props;
-    // the id properties, by kind index 0..5 = V E HE F HF C
-    PropertyPtr<int, Entity::Vertex> *idV = nullptr;
-    PropertyPtr<int, Entity::Edge> *idE = nullptr;
-    PropertyPtr<int, Entity::HalfEdge> *idHE = nullptr;
-    PropertyPtr<int, Entity::Face> *idF = nullptr;
-    PropertyPtr<int, Entity::HalfFace> *idHF = nullptr;
-    PropertyPtr<int, Entity::Cell> *idC = nullptr;
-    long long nextV = 0, nextE = 0, nextF = 0, nextC = 0;
-    int propcount = 0;
-
-    template <class T, class Tag, bool IsId = false>
-    PropT<T, Tag, IsId> *add_prop(const std::string &flavour, const std::string &name, T def) {
-        std::unique_ptr<PropT<T, Tag, IsId>> pb;
-        if (flavour == "shared")
-            pb.reset(new PropT<T, Tag, IsId>(m->request_property<T, Tag>(name, def)));
-        else if (flavour == "private")
-            pb.reset(new PropT<T, Tag, IsId>(m->create_private_property<T, Tag>(name, def)));
-        else {
-            auto o = m->create_persistent_property<T, Tag>(name, def);
-            if (!o) { fprintf(stderr, "cannot create persistent property %s\n", name.c_str()); exit(3); }
-            pb.reset(new PropT<T, Tag, IsId>(*o));
-        }
-        pb->kind = kind_name<Tag>(); pb->name = name; pb->type = IsId ? "id" : Conv<T>::name(); pb->flavour = flavour;
-        auto *raw = pb.get();
-        props.emplace_back(std::move(pb));
-        return raw;
-    }
-
-    template <class Tag> void add_id_prop(PropertyPtr<int, Tag> *&slot) {
-        auto *p = add_prop<int, Tag, true>("shared", std::string("vx:id:") + kind_name<Tag>(), -1);
-        slot = &p->p;
-    }
-
-    void setup_props(int level) {
-        if (level <= 0) return;
-        add_id_prop<Entity::Vertex>(idV); add_id_prop<Entity::Edge>(idE); add_id_prop<Entity::HalfEdge>(idHE);
-        add_id_prop<Entity::Face>(idF); add_id_prop<Entity::HalfFace>(idHF); add_id_prop<Entity::Cell>(idC);
-        if (level >= 2) add_more_props("a");
-    }
-    // a mixed family of value types / flavours on all seven kinds
-    void add_more_props(const std::string &sfx) {
-        add_prop<bool, Entity::Vertex>("private", "", Conv<bool>::def());
-        add_prop<std::string, Entity::Vertex>("persistent", "vs" + sfx, Conv<std::string>::def());
-        add_prop<double, Entity::Edge>("shared", "ed" + sfx, Conv<double>::def());
-        add_prop<bool, Entity::Edge>("persistent", "eb" + sfx, Conv<bool>::def());
-        add_prop<bool, Entity::HalfEdge>("shared", "heb" + sfx, Conv<bool>::def());
-        add_prop<std::string, Entity::HalfEdge>("private", "", Conv<std::string>::def());
-        add_prop<Vec3d, Entity::Face>("shared", "fv" + sfx, Conv<Vec3d>::def());
-        add_prop<bool, Entity::Face>("private", "", Conv<bool>::def());
-        add_prop<int, Entity::HalfFace>("persistent", "hfi" + sfx, Conv<int>::def());
-        add_prop<bool, Entity::HalfFace>("shared", "hfb" + sfx, Conv<bool>::def());
-        add_prop<double, Entity::Cell>("private", "", Conv<double>::def());
-        add_prop<bool, Entity::Cell>("shared", "cb" + sfx, Conv<bool>::def());
-        add_prop<int, Entity::Mesh>("shared", "mi" + sfx, Conv<int>::def());
-    }
-
-    // give every slot that still carries the default id a fresh id and set all
-    // property values of that slot from the id; returns number of stamped slots
-    template <class Tag, class FullTag>
-    size_t stamp_kind(PropertyPtr<int, Tag> *idp, PropertyPtr<int, FullTag> *fullid, long long *next) {
-        if (!idp) return 0;
-        size_t n = 0;
-        const char *kn = kind_name<Tag>();
-        for (size_t i = 0; i < idp->size(); ++i) {
-            if (idp->data_vector()[i] != -1) continue;
-            long long id;
-            if (next) id = (*next)++;
-            else { long long fid = fullid->data_vector()[i / 2]; if (fid == -1) continue; id = 2 * fid + (long long)(i % 2); }
-            for (auto &p : props) if (p->kind == kn && p->size() > i) p->set_from_id(i, id);
-            ++n;
-        }
-        return n;
-    }
-    size_t stamp() {
-        size_t n = 0;
-        n += stamp_kind<Entity::Vertex, Entity::Vertex>(idV, nullptr, &nextV);
-        n += stamp_kind<Entity::Edge, Entity::Edge>(idE, nullptr, &nextE);
-        n += stamp_kind<Entity::HalfEdge, Entity::Edge>(idHE, idE, nullptr);
-        n += stamp_kind<Entity::Face, Entity::Face>(idF, nullptr, &nextF);
-        n += stamp_kind<Entity::HalfFace, Entity::Face>(idHF, idF, nullptr);
-        n += stamp_kind<Entity::Cell, Entity::Cell>(idC, nullptr, &nextC);
-        return n;
-    }
-};
-
-static std::unique_ptr<TopologyKernel> make_mesh(const std::string &t) {
-    if (t == "poly") return std::unique_ptr<TopologyKernel>(new GeometricPolyhedralMeshV3d());
-    if (t == "tet") return std::unique_ptr<TopologyKernel>(new GeometricTetrahedralMeshV3d());
-    if (t == "hex") return std::unique_ptr<TopologyKernel>(new GeometricHexahedralMeshV3d());
-    if (t == "topo") return std::unique_ptr<TopologyKernel>(new TopologyKernel());
-    fprintf(stderr, "unknown mesh type %s\n", t.c_str()); exit(3);
-}
-
-// ---------------------------------------------------------------- projection
-static void dump_state(Json &j, const MeshBox &b, bool with_caches, bool with_props) {
-    const TopologyKernel &m = *b.m;
-    j.begin_obj();
-    j.kv("nv", m.n_vertices());
-    auto flags = [&](const char *k, size_t n, auto mk) {
-        j.key(k); j.begin_arr();
-        for (size_t i = 0; i < n; ++i) j.val((bool)m.is_deleted(mk((int)i)));
-        j.end_arr();
-    };
-    flags("vdel", m.n_vertices(), [](int i) { return VertexHandle(i); });
-    flags("edel", m.n_edges(), [](int i) { return EdgeHandle(i); });
-    flags("fdel", m.n_faces(), [](int i) { return FaceHandle(i); });
-    flags("cdel", m.n_cells(), [](int i) { return CellHandle(i); });
-    j.kv("ndv", m.n_vertices() - m.n_logical_vertices());
-    j.kv("nde", m.n_edges() - m.n_logical_edges());
-    j.kv("ndf", m.n_faces() - m.n_logical_faces());
-    j.kv("ndc", m.n_cells() - m.n_logical_cells());
-    j.key("edges"); j.begin_arr();
-    for (size_t i = 0; i < m.n_edges(); ++i) {
-        auto const &e = m.edge(EdgeHandle((int)i));
-        j.begin_arr(); j.val(e.from_vertex().idx()); j.val(e.to_vertex().idx()); j.end_arr();
-    }
-    j.end_arr();
-    j.key("faces"); j.begin_arr();
-    for (size_t i = 0; i < m.n_faces(); ++i) {
-        j.begin_arr(); for (auto h : m.face(FaceHandle((int)i)).halfedges()) j.val(h.idx()); j.end_arr();
-    }
-    j.end_arr();
-    j.key("cells"); j.begin_arr();
-    for (size_t i = 0; i < m.n_cells(); ++i) {
-        j.begin_arr(); for (auto h : m.cell(CellHandle((int)i)).halffaces()) j.val(h.idx()); j.end_arr();
-    }
-    j.end_arr();
-    j.kv("vbu", m.has_vertex_bottom_up_incidences());
-    j.kv("ebu", m.has_edge_bottom_up_incidences());
-    j.kv("fbu", m.has_face_bottom_up_incidences());
-    j.kv("deferred", m.deferred_deletion_enabled());
-    j.kv("fast", m.fast_deletion_enabled());
-    if (with_caches) {
-        j.key("out"); j.begin_arr();
-        for (auto const &row : Acc::out(m)) { j.begin_arr(); for (auto h : row) j.val(h.idx()); j.end_arr(); }
-        j.end_arr();
-        j.key("hehf"); j.begin_arr();
-        for (auto const &row : Acc::hehf(m)) { j.begin_arr(); for (auto h : row) j.val(h.idx()); j.end_arr(); }
-        j.end_arr();
-        j.key("inc"); j.begin_arr();
-        for (auto c : Acc::inc(m)) j.val(c.idx());
-        j.end_arr();
-    }
-    // derived counters the API reports
-    j.kv("genus", m.genus());
-    j.kv("needs_gc", m.needs_garbage_collection());
-    if (with_props) {
-        j.key("props"); j.begin_arr();
-        for (auto const &p : b.props) {
-            j.begin_obj();
-            j.kv("k", p->kind); j.kv("t", p->type);
-            j.key("d"); p->dump_def(j);
-            j.key("v"); p->dump_vals(j);
-            j.end_obj();
-        }
-        j.end_arr();
-    }
-    j.end_obj();
-}
-
-// ---------------------------------------------------------------- calls
-static std::vector<HalfEdgeHandle> hes_of(const std::vector<int> &l) { std::vector<HalfEdgeHandle> r; for (int x : l) r.emplace_back(x); return r; }
-static std::vector<HalfFaceHandle> hfs_of(const std::vector<int> &l) { std::vector<HalfFaceHandle> r; for (int x : l) r.emplace_back(x); return r; }
-static std::vector<VertexHandle> vs_of(const std::vector<int> &l) { std::vector<VertexHandle> r; for (int x : l) r.emplace_back(x); return r; }
-
-static const long long VOID = -2;
-
-// returns the call's result; *known = false if the op is not a kernel call
-static long long do_kernel_call(TopologyKernel &m, const CallRec &c, bool *known) {
-    *known = true;
-    const std::string &op = c.op;
-    if (op == "add_vertex") return m.add_vertex().idx();
-    if (op == "add_n_vertices") { m.add_n_vertices((size_t)c.a); return VOID; }
-    if (op == "add_edge") return m.add_edge(VertexHandle((int)c.a), VertexHandle((int)c.b), c.f).idx();
-    if (op == "add_face") return m.add_face(hes_of(c.l), c.f).idx();
-    if (op == "add_face_v") return m.add_face(vs_of(c.l)).idx();
-    if (op == "add_cell") return m.add_cell(hfs_of(c.l), c.f).idx();
-    if (op == "set_edge") { m.set_edge(EdgeHandle((int)c.a), VertexHandle(c.l.at(0)), VertexHandle(c.l.at(1))); return VOID; }
-    if (op == "set_face") { m.set_face(FaceHandle((int)c.a), hes_of(c.l)); return VOID; }
-    if (op == "set_cell") { m.set_cell(CellHandle((int)c.a), hfs_of(c.l)); return VOID; }
-    if (op == "delete_vertex") { m.delete_vertex(VertexHandle((int)c.a)); return VOID; }
-    if (op == "delete_edge") { m.delete_edge(EdgeHandle((int)c.a)); return VOID; }
-    if (op == "delete_face") { m.delete_face(FaceHandle((int)c.a)); return VOID; }
-    if (op == "delete_cell") { m.delete_cell(CellHandle((int)c.a)); return VOID; }
-    if (op == "collect_garbage") { m.collect_garbage(); return VOID; }
-    if (op == "swap_vertices") { m.swap_vertex_indices(VertexHandle((int)c.a), VertexHandle((int)c.b)); return VOID; }
-    if (op == "swap_edges") { m.swap_edge_indices(EdgeHandle((int)c.a), EdgeHandle((int)c.b)); return VOID; }
-    if (op == "swap_faces") { m.swap_face_indices(FaceHandle((int)c.a), FaceHandle((int)c.b)); return VOID; }
-    if (op == "swap_cells") { m.swap_cell_indices(CellHandle((int)c.a), CellHandle((int)c.b)); return VOID; }
-    if (op == "enable_deferred") { m.enable_deferred_deletion(c.f); return VOID; }
-    if (op == "enable_fast") { m.enable_fast_deletion(c.f); return VOID; }
-    if (op == "enable_vbu") { m.enable_vertex_bottom_up_incidences(c.f); return VOID; }
-    if (op == "enable_ebu") { m.enable_edge_bottom_up_incidences(c.f); return VOID; }
-    if (op == "enable_fbu") { m.enable_face_bottom_up_incidences(c.f); return VOID; }
-    if (op == "clear") { m.clear(c.f); return VOID; }
-    *known = false;
-    return VOID;
-}
-
-static bool is_bu_toggle(const std::string &op) { return op == "enable_vbu" || op == "enable_ebu" || op == "enable_fbu"; }
 
 // ---------------------------------------------------------------- main loop
 // Scripts are trees: "B" forks a child that executes up to the matching "E"
